@@ -424,7 +424,7 @@ def _print_progress(
     progress_char = "="
     bar_length = 20
 
-    if total_bytes is not None:  # If we actually have an endpoint (i.e. not using a socket)
+    if total_bytes:  # If we actually have an endpoint (i.e. not using a socket) and the source is not empty
         percentage = int((current_bytes / total_bytes) * 100)  # Percent Completed Calculation
         progress = int((bar_length * current_bytes) / total_bytes)  # Progress Done Calculation
     else:
